@@ -1538,8 +1538,12 @@ func (e *Engine) execConvert(fr *Frame, st *State, v *ssa.Convert) SV {
 	case isFloat(fb) && tok:
 		// float -> int: unconstrained integer of the target type
 		return e.freshSV(tt, "f2i", st.pc, st)
-	case fok && isFloat(tb), isFloat(fb) && isFloat(tb):
-		return &Sc{e.vc.declare("i2f", "Float")}
+	case fok && isFloat(tb):
+		// integer -> float: an uninterpreted function of the integer (the same integer converts
+		// to the same float; nothing else is known)
+		return &Sc{e.intToFloat(e.scalar(fr, v.X), fw)}
+	case isFloat(fb) && isFloat(tb):
+		return &Sc{e.vc.declare("f2f", "Float")}
 	case isStr(tb):
 		if sl, ok := ft.Underlying().(*types.Slice); ok {
 			s := e.val(fr, v.X).(*SliceSV)
@@ -1813,6 +1817,16 @@ func (e *Engine) selectInstr(fr *Frame, st *State, v *ssa.Select) SV {
 type RangeSV struct {
 	M string
 	T *types.Map
+}
+
+func (e *Engine) intToFloat(x string, w int) string {
+	name := "i2f"
+	srt := e.ar.intSort(w)
+	if e.ar.mode == ModeBV {
+		name = fmt.Sprintf("i2f_bv%d", w)
+	}
+	e.vc.declareFun(name, []string{srt}, "Float")
+	return fmt.Sprintf("(%s %s)", name, x)
 }
 
 func (e *Engine) rangeInit(fr *Frame, st *State, v *ssa.Range) SV {
